@@ -127,9 +127,16 @@ def modelOf : Cmd → Outcome Obj Obj
   | .iadd a b => orFail a.model fun x =>
     match b with
     | some b => orFail b.model fun y =>
-      match x, add x y with
-      | .list _, .ok r => ⟨.ok r, [r, y]⟩        -- list += extends in place and returns the list
-      | _, r => ⟨r, [x, y]⟩
+      match x with
+      | .list xs =>
+        -- List.M__iadd__: a list operand extends in place; any other iterable is drained through py.Iterate
+        -- (list += tuple/str/bytes/range extends, as in Python)
+        (match y with
+         | .list ys => ⟨.ok (.list (xs ++ ys)), [.list (xs ++ ys), y]⟩
+         | _ => match iterate y with
+                | .ok (ys, _) => ⟨.ok (.list (xs ++ ys)), [.list (xs ++ ys), y]⟩
+                | .error e => ⟨.error e, [x, y]⟩)
+      | _ => ⟨add x y, [x, y]⟩
     | Option.none =>
       match x, add x x with
       | .list _, .ok r => ⟨.ok r, [r]⟩
@@ -187,8 +194,13 @@ def specOf : Cmd → Outcome SVal SSeq
   | .iadd a b => orFail a.spec fun x =>
     match b with
     | some b => orFail b.spec fun y =>
+      if x.kind = .list then
+        -- Python: list.__iadd__ accepts any iterable and extends in place
+        let r : SSeq := ⟨.list, x.items ++ y.items⟩
+        ⟨.ok (.seq r), [r, y]⟩
+      else
       match specAdd x y with
-      | .ok (.seq r) => ⟨.ok (.seq r), [if x.kind = .list then r else x, y]⟩
+      | .ok (.seq r) => ⟨.ok (.seq r), [x, y]⟩
       | r => ⟨r, [x, y]⟩
     | Option.none =>
       match specAdd x x with
